@@ -175,6 +175,8 @@ func fmtValue(fr *frame, a value, verb byte, strict bool) value {
 // unsupported operation inside it yields a placeholder instead of aborting the path.
 func callLenient(fr *frame, m *ssa.Function, recv value, strict bool) (out value) {
 	if !strict {
+		fr.i.lenient++
+		defer func() { fr.i.lenient-- }()
 		defer func() {
 			if r := recover(); r != nil {
 				if _, ok := r.(unsupportedAbort); ok {
@@ -199,6 +201,9 @@ func quoteIf(verb byte, s value) value {
 }
 
 func fmtSprintf(fr *frame, format string, args []value, strict bool) value {
+	if fr.i.lenient > 0 {
+		strict = false // inside the construction of an error message: never fork, never abort
+	}
 	var out value = ""
 	ai := 0
 	for k := 0; k < len(format); k++ {
